@@ -1024,6 +1024,20 @@ pub mod unit {
         @*/
 
         // ---------------------------------------------------------------- instructions that USE ids
+        /// a named address used as the callee must have been declared (when the ruleset checks it);
+        /// YIELD_TO_PARENT only in a subintent
+        pub open spec fn invocation_target_ok(&self, kind: InvocationKind) -> bool {
+            match kind {
+                InvocationKind::Method { address, .. } => self.validation_ruleset.validate_dynamic_address_in_command_part ==>
+                    (*address matches ManifestGlobalAddress::Named(a) ==> self.named_address_created(a)),
+                InvocationKind::Function { address, .. } => self.validation_ruleset.validate_dynamic_address_in_command_part ==>
+                    (*address matches ManifestPackageAddress::Named(a) ==> self.named_address_created(a)),
+                InvocationKind::DirectMethod { .. } => true,
+                InvocationKind::YieldToParent => self.manifest.subintent(),
+                InvocationKind::YieldToChild { .. } => true,
+            }
+        }
+
         /*@fn radix-transactions/src/manifest/static_manifest_interpreter.rs :: impl<'a, M: ReadableManifest + ?Sized> StaticManifestInterpreter<'a, M> :: fn handle_resource_assertion
         @sig
             ensures
@@ -1056,9 +1070,12 @@ pub mod unit {
                 old(self).same_named_addresses(final(self)), old(self).same_intents(final(self)),
                 old(self).no_resurrection(final(self)),
                 ret is Continue ==> final(self).wf(),
+                // the callee / kind of the invocation is acceptable
+                ret is Continue ==> old(self).invocation_target_ok(invocation_kind),
         @loop 1
             invariant
                 self.wf(),
+                old(self).invocation_target_ok(invocation_kind),
                 old(self).same_config(self), old(self).same_lengths(self),
                 old(self).same_named_addresses(self), old(self).same_intents(self),
                 old(self).no_resurrection(self),
